@@ -1183,7 +1183,7 @@ func main() {
 		},
 		Cases: func(tier string) int {
 			if tier == "thorough" {
-				return 15000
+				return 12000
 			}
 			return 600
 		},
